@@ -1813,6 +1813,10 @@ class PrepareAst:
                     default_body is None
                 ), "default branch must be last branch of match statement"
 
+                assert (
+                    case.guard is None
+                ), "guards (case ... if ...) are not supported in match statements"
+
                 if isinstance(case.pattern, ast.MatchAs):
                     default_body = cast(out.CodeBlock, self.apply(case.body))
                     break
